@@ -80,6 +80,15 @@ def make_runs(chk):
         for mode in modes:
             for opts in ([], ["-q"]):
                 add(b"", stack, STANDARD, False, mode, opts, {})
+    # initial stack items above the element limit are printed in full (the limit applies to what operations push)
+    O = G.OP
+    for big in (521, 600, 1100):
+        for script in (bytes([O["NOP"]]), bytes([O["1"]]), bytes([O["DUP"], O["DROP"]]), bytes([O["SIZE"]])):
+            for mode in modes[:3]:
+                add(script, [b"\x07", bytes([0xa0 + big % 7]) * big], [], False, mode, [], {})
+    for mode in modes[:2]:
+        add(bytes([O["CAT"]]), [b"\x11" * 300, b"\x22" * 300], [], True, mode, [], {})
+        add(bytes([O["CAT"]]), [b"\x11" * 260, b"\x22" * 260], [], True, mode, [], {})
     for script, stack in exc:
         for mode in modes:
             for opts in ([], ["-q"], ["--debug=sighash,signing"]):
